@@ -7,6 +7,7 @@ import (
 	"encoding/hex"
 	"fmt"
 	"math/big"
+	"strings"
 
 	c4eapp "github.com/chain4energy/c4e-chain/app"
 	cfevesting "github.com/chain4energy/c4e-chain/x/cfevesting"
@@ -14,6 +15,7 @@ import (
 	sdk "github.com/cosmos/cosmos-sdk/types"
 	authtypes "github.com/cosmos/cosmos-sdk/x/auth/types"
 	authvesting "github.com/cosmos/cosmos-sdk/x/auth/vesting/types"
+	"github.com/cosmos/cosmos-sdk/x/authz"
 	banktypes "github.com/cosmos/cosmos-sdk/x/bank/types"
 	stakingtypes "github.com/cosmos/cosmos-sdk/x/staking/types"
 	"pgregory.net/rapid"
@@ -100,6 +102,10 @@ type VestWorld struct {
 	NowNs  int64
 	VTypes []VType
 	fresh  int
+	// AuthzEvery: every n-th custom-module message is submitted through x/authz (0 = never)
+	AuthzEvery int
+	ViaAuthz   int
+	msgNo      int
 }
 
 func NewVestWorld(vts []VType) *VestWorld {
@@ -158,7 +164,30 @@ func (v *VestWorld) NextFresh() sdk.AccAddress {
 	return FreshAddr(v.fresh)
 }
 
-func (v *VestWorld) Run(msg sdk.Msg) MsgResult { return RunMsg(v.App, v.Ctx, msg) }
+// Run executes msg as a single-message transaction would.  When AuthzEvery is set, every n-th message
+// of the custom modules is not signed by its own signer but executed on his behalf: he has granted
+// a generic x/authz authorisation for that message type to another account, which submits a MsgExec
+// carrying the message.  What the message does must not depend on who submitted it.
+func (v *VestWorld) Run(msg sdk.Msg) MsgResult {
+	v.msgNo++
+	if v.AuthzEvery > 0 && v.msgNo%v.AuthzEvery == 0 && strings.HasPrefix(sdk.MsgTypeURL(msg), "/chain4energy") {
+		var signers []sdk.AccAddress
+		func() {
+			defer func() { _ = recover() }() // GetSigners panics on a malformed address: such a message goes the direct way
+			signers = msg.GetSigners()
+		}()
+		grantee := KeyAcc(6).Addr
+		if len(signers) == 1 && !signers[0].Equals(grantee) {
+			if err := v.App.AuthzKeeper.SaveGrant(v.Ctx, grantee, signers[0], authz.NewGenericAuthorization(sdk.MsgTypeURL(msg)), nil); err != nil {
+				panic(fmt.Sprintf("harness: cannot save an authz grant: %v", err))
+			}
+			exec := authz.NewMsgExec(grantee, []sdk.Msg{msg})
+			v.ViaAuthz++
+			return RunMsg(v.App, v.Ctx, &exec)
+		}
+	}
+	return RunMsg(v.App, v.Ctx, msg)
+}
 
 func (v *VestWorld) Bal(a sdk.AccAddress) sdk.Coins { return v.App.BankKeeper.GetAllBalances(v.Ctx, a) }
 
